@@ -108,6 +108,8 @@ def run_pair(chk, prop):
                            'two real run_scenario coroutines of %d shape(s) polled in turns, user futures pending %s polls, every outcome (pass / panic when polled / panic when called), '
                            'World::new ok / Err / panic; panic hook automaton (original / default / silenced / taken-and-restored)' % (len(shapes_), pends)))
     o.verdict = 'holds'
+    o2 = chk.add(Obligation('%s.attempt-pair.every-step-resolved-as-itself' % prop, o.bound))
+    o2.verdict = 'holds'
     n = 0
     for shape in shapes_:
         for pend in pends:
@@ -122,6 +124,15 @@ def run_pair(chk, prop):
                 if res['escaped'] is not None:
                     continue        # judged by no-panic-escapes-the-attempt
                 o.paths += 1
+                # every step that got a result was looked up in the collection as ITSELF (its own keyword type): a result
+                # without a lookup of that very step means a resolution made for another step was reused
+                tl_ = res.get('timeline') or []
+                asked = set(e_[1] for e_ in tl_ if e_[0] == 'find')
+                got_res = [e_[2] for e_ in tl_ if e_[0] == 'ev' and len(e_) >= 4 and e_[1] in ('Step', 'Background') and e_[3] in ('Passed', 'Skipped', 'Failed')]
+                reused = sorted(set(n_ for n_ in got_res if n_ not in asked))
+                if reused and o2.verdict != 'violated':
+                    o2.verdict = 'violated'
+                    o2.detail = 'step(s) %s (same text as a step of the other scenario, keyword type of their own) got a result without being looked up in the step collection' % reused
                 bad = None
                 if res['hook_end'] != 'outer':
                     bad = 'after both attempts finished the process panic hook is %r, not the one that was in place when they started' % res['hook_end']
@@ -132,6 +143,8 @@ def run_pair(chk, prop):
                     o.verdict = 'violated'
                     o.detail = '%s (two attempts of shape %s interleaved, user futures pending %d poll(s))' % (bad, shape, pend)
     o.paths = n
+    if o2.verdict == 'violated':
+        confirm_reused_resolution(chk, o2, prop)
     if o.verdict == 'violated' and 'panic hook' in (o.detail or ''):
         # natively: two concurrent scenarios whose steps suspend, then a probe panic after the run must reach the hook
         # that was installed before it, and the run itself must not have called it
@@ -173,8 +186,21 @@ def confirm_reused_resolution(chk, o, prop):
         o.verdict = 'inconclusive'
         o.detail += ' | native replay failed: %s' % out[-200:]
     elif ':passed' in evs[0] and ':skipped' in evs[1]:
-        o.verdict = 'inconclusive'
-        o.detail += ' | not reproduced natively (`And dup` under Then, defined for Given only, is Skipped as specified)'
+        # the other direction, across scenarios: the text is looked up as a Then step first (undefined there: Skipped), then
+        # as a Given step in the next scenario (defined: Passed)
+        lines2 = ['mode runner', 'hooks none', 'builder max_concurrent=1', 'feature', '| Feature: f', '|   Scenario: s', '|     Then dup',
+                  '|   Scenario: s2', '|     Given dup', 'given_only dup']
+        path2 = os.path.join(d, '%s-attempt-step-resolution-per-step-2.script' % prop)
+        r2, out2 = replay.run_script('\n'.join(lines2) + '\n', path2, timeout=60)
+        chk.replays += 1
+        evs2 = [ln[7:].rsplit(' t=', 1)[0] for ln in out2.splitlines() if ln.startswith('LOG EV ') and ':step[dup]:' in ln and ':started' not in ln]
+        if r2 is not None and len(evs2) == 2 and not (':skipped' in evs2[0] and ':passed' in evs2[1]):
+            chk.replay_files.append(path2)
+            o.replay = path2
+            o.detail += ' | reproduced natively through the real runner: `Then dup` (no Then definition) then, in the next scenario, `Given dup` (defined for Given) gives %s' % evs2
+        else:
+            o.verdict = 'inconclusive'
+            o.detail += ' | not reproduced natively (a text defined for Given only is Passed as a Given step and Skipped as a Then step, in either order)'
     else:
         chk.replay_files.append(path)
         o.replay = path
